@@ -78,6 +78,8 @@ atag v2; git tag l2 feature/x; git checkout -q --detach; commit side; atag offsi
 # 5: merge, many commits, HEAD switches, tag v1 moved, light tag deleted
 GIT_AUTHOR_DATE="$((t+30)) +0000" GIT_COMMITTER_DATE="$((t+30)) +0000" git merge -q --no-ff -m merge feature/x
 for i in $(seq 1 25); do commit "m$i"; done
+# the feature branch fast-forwards to a commit on main: its old tip is an ancestor through the merge's second parent only
+git branch -q -f feature/x HEAD~20
 t=$((t+60)); GIT_COMMITTER_DATE="$t +0000" git tag -f -a -m v1moved v1 >/dev/null; git tag -d light >/dev/null
 git symbolic-ref HEAD refs/heads/feature/x; save 5; git symbolic-ref HEAD refs/heads/main; git checkout -q -f main
 # 6: a new root (unrelated history) force-pushed over main, a branch whose name nests under a former file name
